@@ -786,6 +786,154 @@ def explore_twoest(case):
     return res
 
 
+# -----------------------------------------------------------------------------------------------------------
+# estimator node data flow: every equation receives the state / covariance the previous one returned
+# -----------------------------------------------------------------------------------------------------------
+class FlowSpy:
+    """step functions that return a freshly tagged state and lower-triangular factor and record what they were handed"""
+
+    def __init__(self):
+        self.k = 0
+        self.last = None  # (x, W) returned last
+        self.bad = []
+        self.calls = 0
+
+    def _fresh(self):
+        self.k += 1
+        # a small MRP and bias (anything a node may legitimately do between steps - shadow switching, re-normalisation, a correct
+        # re-factorisation of W W^T - leaves such a state and a factor with positive diagonal unchanged up to rounding)
+        x = np.array([0.1 * math.sin(0.7 * self.k), 0.1 * math.cos(1.3 * self.k), 0.05, 1e-3 * math.sin(0.1 * self.k), -2e-3, 1e-3 + 1e-9 * (self.k % 1000)], dtype=float)
+        W = np.tril(np.arange(36, dtype=float).reshape(6, 6) * 1e-3 + np.eye(6)) + np.eye(6) * 1e-6 * self.k
+        self.last = (x, W)
+        return x, W
+
+    def _check(self, who, x, W):
+        self.calls += 1
+        if self.last is None:
+            return
+        xa, Wa = np.array(x, dtype=float).reshape(-1), np.array(W, dtype=float)
+        if xa.shape != (6,) or Wa.shape != (6, 6) or np.max(np.abs(xa - self.last[0])) > 1e-12 or np.max(np.abs(Wa - self.last[1])) > 1e-12:
+            if len(self.bad) < 3:
+                self.bad.append(dict(equation=who, call=self.calls, handed_state=xa[:3].tolist(), previous_result_state=self.last[0][:3].tolist(),
+                                     factor_differs=bool(Wa.shape != (6, 6) or np.max(np.abs(Wa - self.last[1])) > 1e-12), upper_part_nonzero=bool(Wa.shape == (6, 6) and np.any(np.triu(Wa, 1) != 0))))
+
+    def eqs(self):
+        spy = self
+
+        def constants():
+            x, W = spy._fresh()
+            spy.k -= 1
+            return dict(x0=x, W0=W)
+
+        def initialize(g_b, B_b, decl):
+            x, _ = spy._fresh()
+            spy.last = (x, spy.last[1] if spy.last else None)
+            return x, 0
+
+        def predict(t, x, W, omega, sg, sn, dt):
+            spy._check("predict", x, W)
+            return spy._fresh()
+
+        def get_state(x):
+            return np.array([1.0, 0, 0, 0]), np.zeros(3), np.zeros(3)
+
+        def correct_accel(x, W, y, g, om, a, b, c):
+            spy._check("correct_accel", x, W)
+            x1, W1 = spy._fresh()
+            return x1, W1, 0.0, np.zeros(2), np.zeros(2), 0.0
+
+        def correct_mag(x, W, y, decl, s_, c):
+            spy._check("correct_mag", x, W)
+            x1, W1 = spy._fresh()
+            return x1, W1, 0.0, np.zeros(1), np.zeros(1), 0.0
+        return dict(constants=constants, initialize=initialize, predict=predict, get_state=get_state, correct_accel=correct_accel, correct_mag=correct_mag)
+
+
+def explore_nodeflow(case):
+    """long runs of the real estimator node on the real bus with recording step functions (a counter-triggered re-factorisation, a
+    periodic reset, a cached copy of the state would break the chain at some call number), and a deep copy of a live node that is then
+    fed on its own (the copy must continue from ITS state)"""
+    import copy
+    res = core.Result()
+    n_msgs, initialize, variant = case["n"], case["initialize"], case["variant"]
+    spy = FlowSpy()
+    c = uros.Core()
+    pub_imu = uros.Publisher(c, "imu", msgs.Imu)
+    pub_mag = uros.Publisher(c, "mag", msgs.Mag)
+    with contextlib.redirect_stdout(io.StringIO()):
+        est = AttitudeEstimator(c, "mrp", spy.eqs(), initialize)
+        c.init_params()
+        if initialize:
+            # the recording initialise returns only a state; the factor chain starts from the node's own W0
+            spy.last = None
+        t = 0.0
+
+        def feed(pi, pm, k0, k1, tt):
+            for k in range(k0, k1):
+                tt += 0.005
+                if k % 4 == 1:
+                    m = msgs.Mag()
+                    m.data["time"] = tt
+                    m.data["mag"] = [0.1, 0, 0]
+                    pm.publish(m)
+                m = msgs.Imu()
+                m.data["time"] = tt
+                m.data["gyro"] = [0.1, 0.2, 0.3]
+                m.data["accel"] = [0, 0, -9.8]
+                pi.publish(m)
+            return tt
+        if variant == "long":
+            t = feed(pub_imu, pub_mag, 0, n_msgs, t)
+            res.count("transitions", n_msgs)
+        else:
+            t = feed(pub_imu, pub_mag, 0, 200, t)
+            try:
+                clone = copy.deepcopy(est)
+            except Exception:
+                clone = None
+                res.count("refused")
+            if clone is not None:
+                # the deep copy brings its own core, publishers and step-function table; FlowSpy is shared only if the copy shares it
+                spy2 = None
+                try:
+                    spy2 = clone.eqs["predict"].__closure__[0].cell_contents
+                except Exception:
+                    pass
+                state_at_copy = spy.last
+                t = feed(pub_imu, pub_mag, 200, 260, t)  # the original moves on
+                cc = clone.core
+                if spy2 is spy:
+                    # functions are shared (deepcopy treats them as atoms): the copy must hand over ITS state, the one at the time of the copy
+                    spy.last = state_at_copy
+                    nb = len(spy.bad)
+                    feed(cc._publishers["imu"], cc._publishers["mag"], 0, 1, t)
+                    if len(spy.bad) > nb:
+                        spy.bad[-1]["note"] = "first step of a deep copy of the node after the original had moved on"
+                res.count("transitions", 261)
+    res.count("evaluations")
+    res.count("states", spy.k)
+    res.count("traces_validated_against_impl", spy.calls)
+    res.nontrivial.add(hash((variant, initialize, n_msgs)))
+    res.outcomes.add(hash((spy.k, len(spy.bad))))
+    if spy.calls < (n_msgs if variant == "long" else 200):
+        raise core.HarnessError("C20 nodeflow: the recording step functions were called %d times only" % spy.calls)
+    for b in spy.bad:
+        res.fail(site="AttitudeEstimator", clause="each_step_function_receives_what_the_previous_one_returned", cls=variant, detail=dict(b, initialize=initialize, messages=n_msgs), sub="nodeflow", case=case)
+    res.samples.append(dict(nodeflow=variant, messages=n_msgs, step_function_calls=spy.calls))
+    return res
+
+
+class _Flow:
+    chunks = 1
+
+    def cases(self, tier, seed):
+        n = 70000 if tier == "quick" else 400000
+        return [dict(sub="nodeflow", n=n, initialize=i, variant="long", tier=tier) for i in (False, True)] + [dict(sub="nodeflow", n=261, initialize=False, variant="deepcopy", tier=tier)]
+
+    def run(self, case):
+        return explore_nodeflow(case)
+
+
 class _TwoEst:
     chunks = 1
 
